@@ -109,6 +109,11 @@ Example C16_example_unclosed_string :
   scan_token_at 5 (b """abc") 0 = Diag "unclosed string literal".
 Proof. vm_compute. reflexivity. Qed.
 
+Example C16_example_string_newline :           (* a raw newline in the literal becomes backslash, n in the value *)
+  scan_token_at 6 (b """a
+b""") 0 = Tok STRING 0 5 (PStr [97; 92; 110; 98]).
+Proof. vm_compute. reflexivity. Qed.
+
 Example C16_example_sinterp_token :            (* begins after the dollar sign *)
   scan_token_at 7 (b "$""a{x}""") 0 = Tok SINTERP 1 6 (PStr (b "a{x}")).
 Proof. vm_compute. reflexivity. Qed.
